@@ -7,5 +7,5 @@ import (
 )
 
 func TestWorker(t *testing.T) {
-	core.WorkerMain(t, core.Property{ID: "C09", Configs: []string{"hsmsss", "hsmsss-stall", "secs1"}, Build: Build})
+	core.WorkerMain(t, core.Property{ID: "C09", Configs: []string{"hsmsss", "hsmsss-stall", "secs1", "secs1-scripted"}, Build: Build})
 }
